@@ -21,11 +21,17 @@ R = Registry(
         "never returns None for a missing row when it is set, raises MultipleResultsFound only under "
         "raise_for_second_row, closes the result before every normal return of a row and before raising for a "
         "second row, projects column 0 only under `scalar`; filtered views (scalars/mappings/tuples/columns) "
-        "share the parent's _real_result and metadata and delegate every fetch primitive to it."
+        "share the parent's _real_result and metadata and delegate every fetch primitive to it; every method "
+        "that re-assigns state captured by the memoized row getters (derived from the getters' bodies), directly or "
+        "through its real result, drops the memoizations or leaves the result closed; _manyrow_getter asks the fetch "
+        "primitive for the requested size, and under uniquing tops up with exactly the shortfall, recomputed after "
+        "every batch; no generator of the family caches a re-assignable delegate (cursor_strategy) across a yield."
     ),
     not_decided=(
-        "equivalence with a list model under arbitrary call sequences, fetch strategies (buffered / streaming), "
-        "uniquing, partitions, freeze/merge."
+        "equivalence with a list model under arbitrary call sequences, fetch strategies (buffered / streaming) "
+        "internals, freeze/merge; state changed from outside the classes (orm/loading.py sets "
+        "result._unique_filter_state on a fresh result); calls made while a partitions() generator that cached "
+        "a memoized getter is suspended; in-place mutation of captured objects (metadata)."
     ),
 )
 
